@@ -133,6 +133,12 @@ class SmartList(list):
             raise ValueError("List only supports elements of type '%s'" %
                              self._content_type)
 
+        # Names have to remain unique within the list
+        for obj in self:
+            if obj is not self[key] and obj is not value and \
+                    hasattr(obj, "name") and obj.name == value.name:
+                raise KeyError("Object with the same name already exists! " + str(value))
+
         # A Section must not become its own ancestor
         owner = getattr(self[key], "_parent", None)
         if hasattr(owner, "_validate_no_cycle") and hasattr(value, "sections"):
